@@ -12,6 +12,20 @@ from BPTK_Py import sd_functions as sd
 def grid(start, dt, n):
     return [float(Decimal(str(start)) + i * Decimal(str(dt))) for i in range(n + 1)]
 
+def run_labels(case):
+    """the label generator alone, on a much larger lattice (cheap): exactly the decimal grid, first to last point"""
+    start, dt, n = case
+    g = grid(start, dt, n)
+    tr = timerange(start, g[-1], dt, exclusive=False)
+    if tr != g:
+        k = next((i for i, (a, b) in enumerate(zip(tr, g)) if a != b), min(len(tr), len(g)))
+        return "timerange(%r,%r,%r) has %d labels, the grid has %d; first difference at index %d: %r vs %r" % (
+            start, g[-1], dt, len(tr), len(g), k, tr[k:k + 3], g[k:k + 3])
+    tr2 = timerange(start, g[-1], dt)        # exclusive: everything but the stop time
+    if tr2 != g[:-1]:
+        return "timerange(%r,%r,%r, exclusive) = ...%r, expected ...%r" % (start, g[-1], dt, tr2[-3:], g[:-1][-3:])
+    return None
+
 def run(case):
     start, dt, n = case
     g = grid(start, dt, n)
@@ -101,7 +115,19 @@ def main():
     failures = []
     cases = [(0.0, 0.1, 12), (1.0, 0.1, 10), (0.0, 0.05, 9), (0.0, 0.2, 7), (0.0, 0.25, 6), (0.3, 0.1, 8), (2.0, 0.5, 5), (0.0, 1.0, 4),
              (0.0, 0.3, 7), (1.5, 0.01, 12), (0.0, 0.125, 9), (10.0, 0.1, 11)]
-    while time.time() < t_end:
+    label_cases = [(st, dt, k) for st in (0.0, 0.5, 1.0, 10.0, 100.0, 1000.0, 2.5) for dt in (0.1, 0.01, 0.001, 0.0001, 0.00001, 0.25, 0.125, 0.3, 0.7, 0.05, 0.2)
+                   for k in (1, 2, 3, 5, 8, 10, 16, 33, 100, 1000)] + [(0.0, 0.001, 16391), (0.0, 0.1, 20000)]
+    for lc in label_cases:
+        n += 1
+        try:
+            bad = run_labels(lc)
+        except Exception as e:
+            bad = 'raised %s: %s' % (type(e).__name__, e)
+        if bad:
+            body = PRELUDE + '\ncase = %r\nbad = run_labels(case)\nprint("case (start, dt, steps):", case)\nprint("FAIL: " + bad if bad else "PASS")\nsys.stdout.flush()\nos._exit(1 if bad else 0)\n' % (lc,)
+            failures.append(dict(what='%s  (start, dt, steps = %r)' % (bad, lc), script=write_replay('C05', 'labels', body), known=None))
+            break
+    while time.time() < t_end and not failures:
         if cases:
             case = cases.pop(0)
         else:
